@@ -19,6 +19,7 @@
 #include "fastscapelib/grid/structured_grid.hpp"
 #include "fastscapelib/utils/utils.hpp"
 #include "fastscapelib/utils/containers.hpp"
+#include "fastscapelib/utils/verif_hooks.hpp"
 
 
 namespace fastscapelib
@@ -343,6 +344,7 @@ namespace fastscapelib
         resize_tridiagonal(m_ncols);
         auto elevation_tmp
             = solve_adi_row(elevation, m_factors_row, m_factors_col, m_nrows, m_ncols, dt);
+        FSL_VERIF_POINT(verif::adi_half_step, this, 0, &elevation_tmp);
 
         // solve for cols (i.e., transpose)
         resize_tridiagonal(m_nrows);
